@@ -155,6 +155,22 @@ static std::string thrOnce(const std::string& kind, int n)
 		usleep(4000);   // let late members end before the counters go out of scope
 		for (int i = 0; i < n; i++) ran[i] = okr[i] == 3 ? 1 : (int)c[i] * 10 + okr[i];
 	}
+	else if (kind == "invs") {
+		// parallel_invoke with one slow function, each position in turn: at return EVERY function must have run (ran = 1 iff so in all turns)
+		std::vector<int> okr(n + 1, 0);
+		for (int slow = 0; slow < n; slow++) {
+			std::vector<int> c(n + 1, 0);
+			volatile int* q = (volatile int*)&c[0];
+			auto f = [q, slow](int i) { if (i == slow) usleep(4000); __sync_add_and_fetch(q + i, 1); };
+			if (n == 2) Thread::parallel_invoke([f]() { f(0); }, [f]() { f(1); });
+			else if (n == 3) Thread::parallel_invoke([f]() { f(0); }, [f]() { f(1); }, [f]() { f(2); });
+			else if (n == 4) Thread::parallel_invoke([f]() { f(0); }, [f]() { f(1); }, [f]() { f(2); }, [f]() { f(3); });
+			else return "bad-op";
+			for (int i = 0; i < n; i++) if (q[i] == 1) okr[i]++;
+			usleep(6000);   // let a function that was not waited for end before its counters go out of scope
+		}
+		for (int i = 0; i < n; i++) ran[i] = okr[i] == n ? 1 : okr[i] * 10;
+	}
 	else if (kind == "inv") {
 		if (n == 2) Thread::parallel_invoke([r]() { __sync_add_and_fetch(r + 0, 1); }, [r]() { __sync_add_and_fetch(r + 1, 1); });
 		else if (n == 3) Thread::parallel_invoke([r]() { __sync_add_and_fetch(r + 0, 1); }, [r]() { __sync_add_and_fetch(r + 1, 1); }, [r]() { __sync_add_and_fetch(r + 2, 1); });
